@@ -45,7 +45,8 @@ TIn ==
             /\ due' = (IF Legal(pos) # {} THEN Append(MarkAll(due), [p |-> pos, must |-> FALSE]) ELSE MarkAll(due))
             /\ UNCHANGED <<pos, clean, sess, wantUci, ids, resync>>
        [] e.kind \in {"stop", "quit", "eof"} -> /\ due' = MarkAll(due) /\ UNCHANGED <<pos, clean, sess, wantUci, ids, resync>>
-       [] e.kind = "ucinewgame" -> /\ due' = MarkAll(due) /\ clean' = TRUE /\ UNCHANGED <<pos, sess, wantUci, ids, resync>>
+       \* the property does not say what ucinewgame does to the current position: it is re-read from the engine (`.state`)
+       [] e.kind = "ucinewgame" -> /\ due' = MarkAll(due) /\ clean' = TRUE /\ resync' = TRUE /\ UNCHANGED <<pos, sess, wantUci, ids>>
        [] e.kind = "uci" -> /\ wantUci' = TRUE /\ ids' = 0 /\ UNCHANGED <<pos, due, clean, sess, resync>>
        [] OTHER -> UNCHANGED <<pos, due, clean, sess, wantUci, ids, resync>>
 
